@@ -61,7 +61,7 @@ def run_cases(progs, R=None, label="scan", plugins=("Plugins.All", "all_plugins"
             import yaml
             cfgfile = os.path.join(impl.scratch(), "cfg.yaml")
             with open(cfgfile, "w") as f:
-                yaml.safe_dump(p["config"], f)
+                yaml.safe_dump(p["config"], f, sort_keys=False)      # the order of keys as the generator wrote them
         mgr = impl.make_manager(p.get("include"), p.get("exclude"), cfgfile, p.get("ignore_nosec", False))
         o = impl.scan_bytes(data, mgr=mgr)
         o["filter"] = effective_filter(mgr)
